@@ -131,11 +131,17 @@ def _literal_seq(node):
     return None
 
 
-def _pure(e) -> bool:
-    """an expression that can be copied to several places: no calls except on literals/names methods are avoided altogether"""
-    for n in ast.walk(e):
+def _pure(e, lambdas: bool = False) -> bool:
+    """an expression that can be copied to several places: no calls except on literals/names methods are avoided altogether.
+    lambdas=True: a `lambda` EXPRESSION counts as pure (evaluating it runs nothing; its body is not looked into)"""
+    todo = [e]
+    while todo:
+        n = todo.pop()
+        if lambdas and isinstance(n, ast.Lambda):
+            continue
         if isinstance(n, (ast.Call, ast.Await, ast.Yield, ast.YieldFrom, ast.NamedExpr, ast.Lambda, ast.ListComp, ast.SetComp, ast.DictComp, ast.GeneratorExp)):
             return False
+        todo.extend(ast.iter_child_nodes(n))
     return True
 
 
@@ -159,7 +165,7 @@ def _unroll_one(loop: ast.For, seq):
             if not isinstance(e, (ast.Tuple, ast.List)) or len(e.elts) != len(names) or any(isinstance(x, ast.Starred) for x in e.elts):
                 return None
             m = dict(zip(names, e.elts))
-        if not all(_pure(v) for v in m.values()):
+        if not all(_pure(v, lambdas=True) for v in m.values()):
             return None
         for st in loop.body:
             out.append(_Subst(dict(m)).visit(copy.deepcopy(st)))
@@ -243,14 +249,51 @@ def _unroll_block(stmts, lits):
                 del lits[k]
         if isinstance(st, ast.Assign) and len(st.targets) == 1 and isinstance(st.targets[0], ast.Name):
             seq = _literal_seq(st.value)
-            if seq is not None and all(_pure(e) for e in seq.elts) and st.targets[0].id not in set().union(*[_loaded(e) for e in seq.elts]):
+            if seq is not None and all(_pure(e, lambdas=True) for e in seq.elts) and st.targets[0].id not in set().union(*[_loaded(e) for e in seq.elts]):
                 lits[st.targets[0].id] = seq
         out.append(st)
     return out
 
 
-def unroll_static_loops(func):
-    func.body = _unroll_block(func.body, {})
+def module_tables(mod: ast.Module) -> dict:
+    """name -> literal tuple/list bound exactly once at module level, never re-bound (`global`) or mutated anywhere in the
+    module, whose elements are pure: usable like a local literal by unroll_static_loops"""
+    cand, count = {}, {}
+    for st in mod.body:
+        for n in ast.walk(st) if not isinstance(st, (ast.FunctionDef, ast.AsyncFunctionDef, ast.ClassDef)) else []:
+            if isinstance(n, ast.Name) and isinstance(n.ctx, (ast.Store, ast.Del)):
+                count[n.id] = count.get(n.id, 0) + 1
+        if isinstance(st, ast.Assign) and len(st.targets) == 1 and isinstance(st.targets[0], ast.Name):
+            seq = _literal_seq(st.value)
+            if seq is not None and all(_pure(e) for e in seq.elts):
+                cand[st.targets[0].id] = seq
+    if not cand:
+        return {}
+    bad = set()
+    for n in ast.walk(mod):
+        if isinstance(n, (ast.Global, ast.Nonlocal)):
+            bad |= set(n.names)
+        elif isinstance(n, ast.Call) and isinstance(n.func, ast.Attribute) and isinstance(n.func.value, ast.Name) and n.func.attr in MUTATORS:
+            bad.add(n.func.value.id)
+        elif isinstance(n, (ast.Assign, ast.AugAssign, ast.Delete)):
+            for t in (n.targets if isinstance(n, (ast.Assign, ast.Delete)) else [n.target]):
+                if isinstance(t, ast.Subscript) and isinstance(t.value, ast.Name):
+                    bad.add(t.value.id)
+                if isinstance(n, ast.AugAssign) and isinstance(t, ast.Name):
+                    bad.add(t.id)
+    return {k: v for k, v in cand.items() if count.get(k, 0) == 1 and k not in bad
+            and not (set().union(*[_loaded(e) for e in v.elts]) & set(cand))}
+
+
+def unroll_static_loops(func, tables: dict | None = None):
+    lits = {}
+    if tables:
+        # a module-level table is visible unless the function binds the name itself (parameter, local, nested def)
+        a = func.args
+        own = {p.arg for p in a.posonlyargs + a.args + a.kwonlyargs} | ({a.vararg.arg} if a.vararg else set()) | ({a.kwarg.arg} if a.kwarg else set()) \
+            | _stored(func.body)
+        lits = {k: v for k, v in tables.items() if k not in own and not (set().union(*[_loaded(e) for e in v.elts]) & own)}
+    func.body = _unroll_block(func.body, lits)
     return func
 
 
@@ -427,10 +470,64 @@ def inline_stmt_calls(func, resolve, max_depth: int = 3):
                                 ast.fix_missing_locations(b)
                             out.extend(expand(new, depth + 1))
                             continue
+            # a straight-line helper called INSIDE the statement's expression (`return f(g(a))`, `x = "(" + g(a) + ")"`): its
+            # statements are hoisted in front of the statement and the call is replaced by the returned expression, provided
+            # nothing with a possible effect is evaluated before the call in that expression
+            v = value_of(st)
+            if v is not None and depth < max_depth and not isinstance(st, ast.AugAssign):
+                hit = _first_nested_call(v, lambda c_: (lambda r_: r_ is not None and r_[0] is not func and _simple_callee(r_[0]) == "stmts")(resolve(c_)))
+                if hit is not None:
+                    callee, recv = resolve(hit)
+                    res = inline_stmts(callee, hit, recv)
+                    if res is not None and res[1] is not None:
+                        body, ret = res
+                        st.value = _ReplaceNode(hit, ret).visit(v)
+                        new = list(body) + [st]
+                        for b in new:
+                            ast.copy_location(b, st) if not hasattr(b, "lineno") else None
+                            ast.fix_missing_locations(b)
+                        out.extend(expand(new, depth + 1))
+                        continue
             out.append(st)
         return out
     func.body = expand(func.body, 0)
     return func
+
+
+class _ReplaceNode(ast.NodeTransformer):
+    def __init__(self, old, new):
+        self.old, self.new = old, new
+
+    def visit(self, n):
+        if n is self.old:
+            return self.new
+        return self.generic_visit(n)
+
+
+def _first_nested_call(expr, wanted):
+    """the first call (in evaluation order) inside `expr` for which wanted(call) holds, reached only through operands that are
+    always evaluated (call arguments, operators, attribute/subscript bases, displays, f-string fields) and with nothing but
+    pure sub-expressions evaluated before it; None otherwise"""
+    def rec(n):
+        """-> (hit | None, pure_so_far)"""
+        if isinstance(n, ast.Call) and wanted(n) and n is not expr:
+            if all(_pure(a) for a in n.args) and all(_pure(k.value) for k in n.keywords) and _pure(n.func):
+                return n, True
+            return None, False
+        if isinstance(n, (ast.Call, ast.BinOp, ast.UnaryOp, ast.Attribute, ast.Subscript, ast.Tuple, ast.List, ast.Set, ast.JoinedStr, ast.FormattedValue,
+                          ast.Starred, ast.keyword, ast.Compare, ast.Slice, ast.Index if hasattr(ast, "Index") else ast.Slice)):
+            for ch in ast.iter_child_nodes(n):
+                if isinstance(ch, (ast.expr_context, ast.operator, ast.unaryop, ast.cmpop)):
+                    continue
+                h, pure = rec(ch)
+                if h is not None:
+                    return h, True
+                if not pure:
+                    return None, False
+            # the node itself: a call evaluated after its operands has an effect for whatever follows
+            return None, not isinstance(n, ast.Call)
+        return None, _pure(n)
+    return rec(expr)[0]
 
 
 class _ExprInliner(ast.NodeTransformer):
@@ -551,6 +648,43 @@ def inline_local_defs(func):
     return func
 
 
+class _CallLambda(ast.NodeTransformer):
+    """`(lambda: e)()` -> e   (a parameterless lambda called on the spot, e.g. after a table of closures was unrolled)"""
+
+    def visit_Call(self, n):
+        self.generic_visit(n)
+        f = n.func
+        if isinstance(f, ast.Lambda) and not n.args and not n.keywords and not (f.args.args or f.args.posonlyargs or f.args.kwonlyargs or f.args.vararg or f.args.kwarg):
+            return ast.copy_location(f.body, n)
+        return n
+
+
+def _drop_dead_tables(func):
+    """`name = <literal tuple/list of pure elements>` whose name is never read (any more, after its loop was unrolled): the
+    binding has no effect, and its elements (e.g. references to local helpers) would otherwise count as uses"""
+    read = {n.id for n in ast.walk(func) if isinstance(n, ast.Name) and isinstance(n.ctx, (ast.Load, ast.Del))}
+    if any(isinstance(n, ast.Name) and n.id in ("locals", "vars", "eval", "exec") for n in ast.walk(func)):
+        return func
+
+    def prune(stmts):
+        out = []
+        for st in stmts:
+            if isinstance(st, ast.Assign) and len(st.targets) == 1 and isinstance(st.targets[0], ast.Name) and st.targets[0].id not in read:
+                seq = _literal_seq(st.value)
+                if seq is not None and all(_pure(e, lambdas=True) for e in seq.elts):
+                    continue
+            if not isinstance(st, (ast.FunctionDef, ast.ClassDef, ast.AsyncFunctionDef)):
+                for fld in ("body", "orelse", "finalbody"):
+                    b = getattr(st, fld, None)
+                    if isinstance(b, list) and b and isinstance(b[0], ast.stmt):
+                        nb = prune(b)
+                        setattr(st, fld, nb if nb or fld != "body" else [ast.copy_location(ast.Pass(), st)])
+            out.append(st)
+        return out
+    func.body = prune(func.body) or [ast.Pass()]
+    return func
+
+
 class _ConstGetattr(ast.NodeTransformer):
     """`getattr(x, "name")` (two arguments, literal identifier) is the attribute access `x.name`"""
 
@@ -566,12 +700,19 @@ def const_getattr(node):
     return ast.fix_missing_locations(_ConstGetattr().visit(node))
 
 
-def normalize_function(func):
-    """the local normalisations (no knowledge of other functions needed)"""
+def normalize_function(func, tables: dict | None = None):
+    """the local normalisations (no knowledge of other functions needed); `tables`: module-level literal tables (module_tables)"""
     try:
         inline_local_defs(func)
-        unroll_static_loops(func)
+        before = len(list(ast.walk(func)))
+        unroll_static_loops(func, tables)
         const_getattr(func)          # after unrolling: the name may come from a row of the unrolled table
+        if len(list(ast.walk(func))) != before:
+            # unrolling a table of closures / helper references turns them into direct calls: a second round inlines those
+            _drop_dead_tables(func)
+            func.body = [_CallLambda().visit(st) for st in func.body]
+            inline_local_defs(func)
+            ast.fix_missing_locations(func)
     except RecursionError:
         pass
     return func
